@@ -114,7 +114,7 @@ CLAIMED = {
              "changes; a successful bake locks and closes (and records) the open stage; undeclared operands and duplicate names are rejected "
              "with the state unchanged; one open stage, unique stage names, 'all' reserved; a stage records exactly the steps added between its "
              "start and end; in every reachable state bake is refused iff some declared object is unused. The per-method guard table is "
-             "regenerated from the source each run and proved equal to the automaton's. Correspondence: every call of a 30-call alphabet from "
+             "regenerated from the source each run and proved equal to the automaton's. Correspondence: every call of a 32-call alphabet (incl. two different objects with one name) from "
              "every lifecycle state reachable within the bound.",
              technique="Coq proof (automaton invariants by induction over call sequences); translator-regenerated guard table; exhaustive state-space correspondence",
              design="5 C16"),
@@ -132,13 +132,14 @@ CLAIMED = {
              design="5 C19"),
  'C04': dict(text="Theorems over an object-level model (Heap.v: containers, well arrays, plates and slice objects as cells of a heap; deepcopy = "
              "fresh cells, copy(slice) = one fresh cell, attribute/item assignment = store): for every operation of the DSL (constructors, "
-             "plate[...] , all four transfer forms incl. same-plate, remove, fill_to, dilute, create_solution(_from) on containers, Recipe.uses), "
+             "plate[...] , all four transfer forms incl. same-plate, remove, fill_to, dilute, create_solution(_from) on containers, Recipe.uses, and a "
+             "whole recipe -- uses(objects), transfer/remove/fill_to/dilute steps written with the user's own objects and slices, bake), "
              "every heap and every argument, the call -- returning or raising at any point, e.g. at a later well -- leaves every cell that "
              "existed as it was, so everything observable through any older object (name, contents, volume, capacity, instruction revision, "
              "every well, the plate a slice points at) is unchanged; results are new cells; by induction nothing observable after a prefix of "
              "a history is changed by any continuation. Tie: correspondence of decisions, returned values AND the identity structure of "
-             "everything reachable from every variable. Recipe steps/bake (also a bake failing at step k, and later operations on baked "
-             "results) are decided by the fingerprint oracle on the implementation only (partial).",
+             "everything reachable from every variable. Recipe create_* steps, the intermediate states between adding steps, and later operations "
+             "on baked results are decided by the fingerprint oracle on the implementation only (partial).",
              technique="Coq proof (Hoare-style frame rule over an append-only heap, induction over well loops and histories); differential correspondence incl. object-identity graph; fingerprint oracle around every call",
              design="5 C04"),
  'C09': dict(text="Theorems (every recipe of the step language, every substance incl. ones never used, every duplicate-free destination "
